@@ -33,13 +33,13 @@ CONFIG = {
         "C14_wrap_keeps_spans": "full: Text.wrap (split, expand_tabs, divide, rstrip_end, truncate; justify default, overflow fold, repaired divide) keeps every span inside its line: all texts with in-range spans, all style types, every width >= 1",
         "C14_join_keeps_spans": "full: Text('\\n').join of lines with in-range spans succeeds and keeps the spans in range",
         "C14_text_render_total": "full: Text.render's enter/leave sweep never fails on ANY text whose spans lie within it (unbounded in text and spans)",
-        "C14_render_total": "full over constructors, nesting depth, widths (every W, also < 1 and far below the structural minimum), console widths and inherited options: Text, Padding, Panel, Align, Constrain, Styled, RenderGroup, Rule, Bar, ProgressBar, Table, Columns, Tree, no-measure objects, __rich__ casts; option domain `valid` restricts only tables (padding >= 0, no table min_width, >= 1 column, columns without fixed width/min_width/no_wrap, max_width >= 1, ratio >= 1); outside it correspondence only",
+        "C14_render_total": "full over constructors, nesting depth, widths (every W, also < 1 and far below the structural minimum), console widths and inherited options: Text, Padding, Panel, Align, Constrain, Styled, RenderGroup, Rule, Bar, ProgressBar, Table, Columns, Tree, no-measure objects, __rich__ casts; option domain `valid` restricts only tables (padding >= 0, >= 1 column, columns without fixed width/min_width/no_wrap, max_width >= 1, ratio >= 1; Table(width=) and Table(min_width=) are inside); outside it correspondence only",
         "C14_measure_total": "full, same domain as C14_render_total",
-        "C14_calc_widths_total": "full: Table._calculate_column_widths never fails at ANY budget (also below one cell per column, <= 0), expanding or not, ratio columns included; columns free to wrap, no table min_width",
+        "C14_calc_widths_total": "full: Table._calculate_column_widths (both variants of the ratio-column minimum) never fails at ANY budget (also below one cell per column, <= 0) and answers one width >= 1 per column, expanding or not, ratio columns and table min_width included; columns free to wrap (cites C01's LayoutP10)",
         "C14_columns_grid_total": "full: the Columns width search terminates with a column count >= 1 and the grid is built, for any measured widths <= console width, any padding, equal / column_first / right_to_left",
         "C14_columns_fixed_is_frames": "full: the repaired Columns(width=) of (8) is C08's columns_grid_fixed, class for class",
     },
     "level_text": "Machine-checked Coq theorems, unbounded in the input strings, stating that each public entry point of rich (Color.parse, Style.parse, Style.normalize, markup.render, Console.get_style, AnsiDecoder.decode, Text, Console.print without markup, Columns, rendering and measuring renderable trees) as a res-valued function built from the executable models of the other layers never answers an undocumented escape; outcome classes of model and implementation compared on every string over a token alphabet of syntax fragments up to a length bound, random Unicode, and renderable trees at every width 1..200.",
-    "level_note": "Trusted: Coq kernel + vm_compute, the AST translator, extraction, OCaml, the harness; the models of the other layers (Color.v, Style.v, Markup.v, AnsiDecode.v, TextOps.v, Wrap.v, Frames.v, Layout.v) and their own correspondence checks. Nothing is `_partial` any more. Remaining restriction: the option domain `valid` of C14_render_total / C14_measure_total excludes Table(min_width=) and Column(width= / min_width= / no_wrap=True) (missing: calc_widths_total for such columns); Columns(width=) is proved at the Frames level (C14_columns_total), the tree language of Layout.v has Columns without explicit width. D8 and D10 are fixed in /repo (909e789, ef09520).",
+    "level_note": "Trusted: Coq kernel + vm_compute, the AST translator, extraction, OCaml, the harness; the models of the other layers (Color.v, Style.v, Markup.v, AnsiDecode.v, TextOps.v, Wrap.v, Frames.v, Layout.v) and their own correspondence checks. Nothing is `_partial` any more. Remaining restriction: the option domain `valid` of C14_render_total / C14_measure_total excludes only Column(width= / min_width= / no_wrap=True) (missing: calc_widths_x_total / _bound for columns that are not col_free); Columns(width=) is proved at the Frames level (C14_columns_total), the tree language of Layout.v has Columns without explicit width. D8 and D10 are fixed in /repo (909e789, ef09520).",
     "assumptions": ["the default ReprHighlighter only adds spans that lie within the text (oracle hl; validated on every generated string)", "_emoji_replace is a pure str -> str function (oracle E)", "functools.lru_cache is a pure memo (Color.parse, Style.parse, Style.normalize)", "the theme stack answers Style objects for the names it knows (nothing is parsed for them)"],
 }
